@@ -311,36 +311,45 @@ def _expand(chunk: t.Tuple[int, int]) -> t.List[t.Any]:
     return out
 
 
-def explore(kmax: int, cuts: bool, known: t.Set[t.Tuple[str, str]], seed: int) -> t.Dict[str, t.Any]:
+STATE_CAP = {"quick": 120_000, "thorough": 1_500_000}  # > 12x / 1.5x the state count of the pinned tree: a space that has stopped closing is cut here
+BATCH = 20_000
+
+
+def explore(kmax: int, cuts: bool, known: t.Set[t.Tuple[str, str]], seed: int, cap: int = 1_500_000) -> t.Dict[str, t.Any]:
     w0 = World()
     seen: t.Set[bytes] = {w0.key()}
     frontier: t.List[t.Any] = [(w0, [])]
-    st: t.Dict[str, t.Any] = {"states": 1, "transitions": 0, "quiescent": 0, "viol": {}, "levels": 0, "samples": [], "outcomes": set()}
-    while frontier:
+    st: t.Dict[str, t.Any] = {"states": 1, "transitions": 0, "quiescent": 0, "viol": {}, "levels": 0, "samples": [], "outcomes": set(), "capped": False}
+    while frontier and not st["capped"]:
         st["levels"] += 1
         _X.update(frontier=frontier, kmax=kmax, cuts=cuts, seen=seen, known=known, keys=[w.key() for w, _h in frontier])
-        chunks = par.split(len(frontier), par.ncpu() * 4 if len(frontier) > 200 else 1)
-        results = par.pmap(_expand, chunks, seed) if len(chunks) > 1 else [_expand(c) for c in chunks]
         nxt = []
-        for part in results:
-            for idx, ev, key, w2, v, q in part:
-                st["transitions"] += 1
-                st["quiescent"] += 1 if q else 0
-                st["outcomes"].add((ev[0], ev[1], q))
-                hist = frontier[idx][1]
-                if v is not None:
-                    e = st["viol"].get(v[0])
-                    if e is None:
-                        st["viol"][v[0]] = {"what": v[1], "history": hist + [list(ev)], "count": 1}
-                    else:
-                        e["count"] += 1
-                if w2 is not None and key not in seen:
-                    seen.add(key)
-                    st["states"] += 1
-                    h2 = hist + [list(ev)]
-                    nxt.append((w2, h2))
-                    if len(st["samples"]) < 3 and len(h2) >= 8 and q:
-                        st["samples"].append(h2)
+        for b0 in range(0, len(frontier), BATCH):
+            if st["states"] > cap:
+                st["capped"] = True  # reported as INCOMPLETE (exhaustive = false); never a violation
+                break
+            b1 = min(len(frontier), b0 + BATCH)
+            chunks = [(b0 + lo, b0 + hi) for lo, hi in par.split(b1 - b0, par.ncpu() * 4 if b1 - b0 > 200 else 1)]
+            results = par.pmap(_expand, chunks, seed) if len(chunks) > 1 else [_expand(c) for c in chunks]
+            for part in results:
+                for idx, ev, key, w2, v, q in part:
+                    st["transitions"] += 1
+                    st["quiescent"] += 1 if q else 0
+                    st["outcomes"].add((ev[0], ev[1], q))
+                    hist = frontier[idx][1]
+                    if v is not None:
+                        e = st["viol"].get(v[0])
+                        if e is None:
+                            st["viol"][v[0]] = {"what": v[1], "history": hist + [list(ev)], "count": 1}
+                        else:
+                            e["count"] += 1
+                    if w2 is not None and key not in seen:
+                        seen.add(key)
+                        st["states"] += 1
+                        h2 = hist + [list(ev)]
+                        nxt.append((w2, h2))
+                        if len(st["samples"]) < 3 and len(h2) >= 8 and q:
+                            st["samples"].append(h2)
         frontier = nxt
     return st
 
@@ -499,7 +508,11 @@ def run(ctx: evid.Ctx) -> None:
     h = [["c", "search"], ["d", "c2s", "all"], ["s", "entry", 1], ["s", "done", 1], ["d", "s2c", "next"], ["d", "s2c", "all"]]
     a, b = replay_history(h, kmax, cuts), replay_history(h, kmax, cuts)
     assert a == b, "replay is not deterministic"
-    st = explore(kmax, cuts, set(ctx.known), ctx.seed)
+    st = explore(kmax, cuts, set(ctx.known), ctx.seed, STATE_CAP[ctx.tier])
+    if st["capped"]:
+        ctx.exhaustive = False
+        ctx.note("INCOMPLETE", f"state cap {STATE_CAP[ctx.tier]} reached after {st['levels']} levels: the joint state space did not close (sessions that differ after every event?); violations found so far are reported")
+        print(f"INCOMPLETE: joint search stopped at the state cap ({st['states']} states); see evidence")
     ctx.add("states", st["states"])
     ctx.add("transitions", st["transitions"])
     ctx.add("traces_validated_against_impl", st["transitions"])
